@@ -131,7 +131,7 @@ def check_public_key_encoding(blob: bytes) -> None:
 
 def checksig(
     vm: Any,
-    sig_pair: tuple[int, int],
+    sig_pair: tuple[int, int] | None,
     signature_type: int,
     pair_blob: bytes,
     blobs_to_delete: Any,
@@ -145,6 +145,9 @@ def checksig(
     if verify_witness_pubkeytype:
         if pair_blob[0] not in (2, 3) or len(pair_blob) != 33:
             raise ScriptError("uncompressed key in witness", errno.WITNESS_PUBKEYTYPE)
+    if sig_pair is None:
+        # empty or unparseable signature: it matches no key, but the key encoding rules above still apply
+        return False
     try:
         public_pair = sec_to_public_pair(pair_blob, generator, strict=verify_strict)
     except (ValueError, EncodingError):
@@ -178,7 +181,7 @@ def checksigs(vm: Any, sig_blobs: list[bytes], public_pair_blobs: list[bytes]) -
                 sig_blob, flags, vm
             )
         except (der.UnexpectedDER, ValueError):
-            public_pair_blobs = []
+            sig_pair, signature_type = None, SIGHASH_ALL
         while len(sig_blobs_remaining) < len(public_pair_blobs):
             pair_blob = public_pair_blobs.pop()
             if checksig(
